@@ -139,10 +139,10 @@ PROPS = {
         'trusted': ['f64 rounding is not modelled (theorems exact over R; the search evaluates them on the real outputs with the property tolerance 1e-9)'],
     },
     'C02': {
-        'level_text': 'Proof over R: score = area*N/cellArea with cellArea = |AxB| (C14); LineShape area equals the shoelace area of the closed outline from_radial builds (n>=3, r>=0), (n/2) sin(2pi/n) for polygon n; disc-union area = measure of the union minus the triple intersection for any finite measure realising the disc and lens values (exact when no point lies in all three discs, an under-count otherwise: known finding F10). The lens value is proved for Lebesgue measure and axis-aligned discs in all three regimes (C02Lens.volume_inter_eq_circleOverlap, by integration). area / score / cell area are regenerated from the source and proved equal to the model (TieDisc, TieHardShape, TieCell, TiePacked). score <= 1: for N measurable copies ALL of whose lattice translates are pairwise disjoint (the conclusion of C01), N*area <= |det(A,B)| = cell area, for Lebesgue measure on the plane and the lattice spanned by any basis (C02Tiling.packing_fraction_le_one, from the principle of Blichfeldt and the ZSpan fundamental domain; the tiling hypothesis of covered_le_cell is thereby a theorem). Partial: the rigid motion reducing a general pair of discs to an axis-aligned one is not formalised; measurability of the placed shapes is a hypothesis.',
+        'level_text': 'Proof over R: score = area*N/cellArea with cellArea = |AxB| (C14); LineShape area equals the shoelace area of the closed outline from_radial builds (n>=3, r>=0), (n/2) sin(2pi/n) for polygon n; disc-union area = measure of the union minus the triple intersection for any finite measure realising the disc and lens values (exact when no point lies in all three discs, an under-count otherwise: known finding F10). The lens value is proved for Lebesgue measure in all three regimes (C02Lens.volume_inter_eq_circleOverlap, by integration, for discs centred on the x-axis). area / score / cell area are regenerated from the source and proved equal to the model (TieDisc, TieHardShape, TieCell, TiePacked). score <= 1: for N measurable copies ALL of whose lattice translates are pairwise disjoint (the conclusion of C01), N*area <= |det(A,B)| = cell area, for Lebesgue measure on the plane and the lattice spanned by any basis (C02Tiling.packing_fraction_le_one, from the principle of Blichfeldt and the ZSpan fundamental domain; the tiling hypothesis of covered_le_cell is thereby a theorem). The lens value holds for two discs ANYWHERE in the plane (C02LensGeneral.volume_inter_eq_circleOverlap_general: the rigid motion taking a general pair to the axis-aligned one preserves Lebesgue measure - rotation of determinant one, translation invariance; coincident centres included). For the circle shape nothing is left as a hypothesis: N open discs of radius r with pairwise disjoint lattice translates satisfy N pi r^2 <= |det(A,B)| (C02Circles.circle_packing_fraction_le_one: discs are measurable and have Lebesgue measure pi r^2 wherever they are). Partial: for general shapes measurability of the placed copies is a hypothesis of the packing-fraction bound. The constructors from_radial / polygon / from_trimer / circle are regenerated from the source and proved to build the outlines and disc sets the area theorems are about (TieCtor).',
         'level_note': 'Trusted: lens-area closed form and "shoelace = area" as geometry; Lean kernel + 3 axioms; Mathlib measure theory; area/score functions tied by bit-exact pair/state families.',
         'technique': 'Lean 4 proof (trigonometric identities, inclusion-exclusion and integration in measure theory) + source-to-Lean translation with tie theorems + differential correspondence + exact-area oracle',
-        'theorems': ['Proofs.C02', 'Proofs.TieDisc', 'Proofs.TieCell', 'Proofs.TieHardShape', 'Proofs.TiePacked', 'Proofs.C02Lens', 'Proofs.SrcC02', 'Proofs.TieShapeDispatch', 'Proofs.C02Tiling', 'Proofs.TieCtor'],
+        'theorems': ['Proofs.C02', 'Proofs.TieDisc', 'Proofs.TieCell', 'Proofs.TieHardShape', 'Proofs.TiePacked', 'Proofs.C02Lens', 'Proofs.SrcC02', 'Proofs.TieShapeDispatch', 'Proofs.C02Tiling', 'Proofs.TieCtor', 'Proofs.C02LensGeneral', 'Proofs.C02Circles'],
         'families': [('pair_hard', 2500, 40000), ('state_hard', 1500, 20000), ('cell', 800, 10000)],
         'search': (12, 300),
         'rule': 'pair: area/radius/items of polygons 3..69 sides, radial polygons, circle, trimers over the CLI parameter space; search: shoelace oracle, union-of-discs area by tanh-sinh scanline integration stratified by overlap topology, score = N*area/|AxB| in (0,1] on random and optimised states',
@@ -173,7 +173,7 @@ PROPS = {
     },
     'C09': {
         'needs_cli': True,
-        'level_text': 'Partial proof. Determinism of the model is by construction (optimise / replica / cliRun are functions of state, settings and seed). Proved: from the source as it is now, Clone of Cell2/OccupiedSite allocates a fresh cell per parameter, no static/thread_local/Rc/Arc/RefCell/Mutex/Atomic exists, the only unsafe items are the four in basis.rs, a set seed bypasses entropy; noninterference: k replicas stepping over ONE shared heap under ANY interleaving through handles on pairwise disjoint cells with local scores end exactly as if run alone and never write a cell of another replica or of the original; every stage carries the replica index as seed; the reduction is bracketing-independent (C10). Not exhibited by the model: data races on the unsynchronised UnsafeCell, the memory model, rayon scheduling - covered empirically by thread sweeps of the real binary and a thread-pool oracle.',
+        'level_text': 'Partial proof. Determinism of the model is by construction (optimise / replica / cliRun are functions of state, settings and seed). Proved: from the source as it is now, Clone of Cell2/OccupiedSite allocates a fresh cell per parameter, no static/thread_local/Rc/Arc/RefCell/Mutex/Atomic exists, the only unsafe items are the four in basis.rs, a set seed bypasses entropy; noninterference: k replicas stepping over ONE shared heap under ANY interleaving through handles on pairwise disjoint cells with local scores end exactly as if run alone and never write a cell of another replica or of the original; every stage carries the replica index as seed; the reduction is bracketing-independent (C10). Not exhibited by the model: data races on the unsynchronised UnsafeCell, the memory model, rayon scheduling - covered empirically by thread sweeps of the real binary and a thread-pool oracle. The ordering the reduction uses (PartialEq / PartialOrd / Ord of both state types) is regenerated from the source; the model reduction step is std::cmp::max for it (TieCmp).',
         'level_note': 'Trusted: soundness of the hand-written unsafe impl Send/Sync given that each replica owns its cells (justified at source level by clone_fresh + move semantics); rayon; Lean kernel + 3 axioms; translator for Clone bodies and the shared-state inventory.',
         'technique': 'Lean 4 noninterference proof over a shared heap with arbitrary schedules + translator-pinned source inventory + differential correspondence of whole CLI runs under thread sweeps',
         'theorems': ['Proofs.C09', 'Proofs.TieCmp'],
@@ -185,7 +185,7 @@ PROPS = {
     },
     'C10': {
         'needs_cli': True,
-        'level_text': 'Full proof about the model of analyse_state (stage overrides and reduction regenerated from main.rs and pinned): the written structure is one of the replica results, its score is at least every replica\'s and equals the logged value; any bracketing of the reduction returns the last maximal element; replica i does not depend on the replication count, hence prefix monotonicity; optimisation changes parameters only, so the written structure carries the requested group name, family, shape, kind and the group\'s full number of copies; zero replications is an error. Table labels equal lookup names (kernel-decided on the regenerated table).',
+        'level_text': 'Full proof about the model of analyse_state (stage overrides and reduction regenerated from main.rs and pinned): the written structure is one of the replica results, its score is at least every replica\'s and equals the logged value; any bracketing of the reduction returns the last maximal element; replica i does not depend on the replication count, hence prefix monotonicity; optimisation changes parameters only, so the written structure carries the requested group name, family, shape, kind and the group\'s full number of copies; zero replications is an error. Table labels equal lookup names (kernel-decided on the regenerated table). The ordering of states is regenerated from the source and the model reduction step is std::cmp::max for it (TieCmp: ordered by score, right operand on ties, None = the panicking unwrap); the shape constructors the CLI calls are regenerated too (TieCtor).',
         'level_note': 'Trusted: structopt/clap argument parsing; rayon; Lean kernel + 3 axioms; whole CLI runs of the real binary are compared with the model bit for bit (cli family).',
         'technique': 'Lean 4 proof over the pipeline model + translator-pinned stages/reduction/labels + differential correspondence with the real binary',
         'theorems': ['Proofs.C10', 'Proofs.TieCmp', 'Proofs.TieCtor'],
@@ -208,7 +208,7 @@ PROPS = {
         'trusted': ['float <-> text conversion'],
     },
     'C12': {
-        'level_text': 'Proof over R. Discs complete: test <=> the open discs share a point; symmetric; invariant under common rigid motions/reflections. Segments (after the tolerance fix): test <=> not near-parallel (|cross| <= 1e-12 |a||b|) and the 1e-12-extended segments share a point; yes implies points of the true segments within 1e-12(|a|+|b|); complete for non-near-parallel segments sharing a point; symmetric; invariant under orthogonal maps. Polygons: test <=> some such edge pair; coincident copies detected. Convex polygons: for closed strictly convex outlines of either orientation (which every placement of Shape.polygon n is: polygon_convexCW, ConvexOutline.transform) a common strictly interior point, neither outline nested strictly inside the other, forces two edges to share a point (convex_overlap_edges) and hence a positive test when meeting edges are not near-parallel (convex_overlap_detected_oriented). Partial: the angle hypothesis (crossings above the 1e-12 relative tolerance) and not-nestedness of congruent copies stay explicit hypotheses.',
+        'level_text': 'Proof over R. Discs complete: test <=> the open discs share a point; symmetric; invariant under common rigid motions/reflections. Segments (after the tolerance fix): test <=> not near-parallel (|cross| <= 1e-12 |a||b|) and the 1e-12-extended segments share a point; yes implies points of the true segments within 1e-12(|a|+|b|); complete for non-near-parallel segments sharing a point; symmetric; invariant under orthogonal maps. Polygons: test <=> some such edge pair; coincident copies detected. Convex polygons: for closed strictly convex outlines of either orientation (which every placement of Shape.polygon n is: polygon_convexCW, ConvexOutline.transform) a common strictly interior point, neither outline nested strictly inside the other, forces two edges to share a point (convex_overlap_edges) and hence a positive test when meeting edges are not near-parallel (convex_overlap_detected_oriented). Partial: the angle hypothesis (crossings above the 1e-12 relative tolerance) and not-nestedness of congruent copies stay explicit hypotheses. Constructors and the Mul impls placing a component are regenerated from the source (TieCtor, TieOps).',
         'level_note': 'Trusted: Lean kernel + 3 axioms; pair predicates tied by the bit-exact pair family; tolerance constant regenerated by the translator and pinned.',
         'technique': 'Lean 4 proof (planar geometry over R, convex outlines) + source-to-Lean translation of the pair predicates with tie theorems + bit-exact differential correspondence + separating-axis oracle',
         'theorems': ['Proofs.C12', 'Proofs.C12Convex', 'Proofs.TieDisc', 'Proofs.TieLine', 'Proofs.TieHardShape', 'Proofs.C12Orient', 'Proofs.C12Polygon', 'Proofs.C12Placed', 'Proofs.SrcC12', 'Proofs.TieOps', 'Proofs.TieCtor'],
@@ -219,7 +219,7 @@ PROPS = {
         'trusted': ['f64 rounding is not modelled (theorems exact over R; the search evaluates them on the real outputs with the property tolerance 1e-9)'],
     },
     'C13': {
-        'level_text': 'Proof over R: uncut energy = 4 eps ((s^2/r^2)^6 - (s^2/r^2)^3) = 4 eps((s/r)^12-(s/r)^6); cut: shifted inside, exactly 0 at and beyond the cutoff; depends on the squared distance only; invariant under common rigid motions; >= -eps with equality iff (s^2/r^2)^3 = 1/2; molecule energy = sum over particle pairs; trimer constants sigma = 2 radius, cutoff 7/2 (generated). Partial: symmetry proved for like particles only; for unlike particles it is FALSE of the code (kernel-decided witness over Q) - known finding F11.',
+        'level_text': 'Proof over R: uncut energy = 4 eps ((s^2/r^2)^6 - (s^2/r^2)^3) = 4 eps((s/r)^12-(s/r)^6); cut: shifted inside, exactly 0 at and beyond the cutoff; depends on the squared distance only; invariant under common rigid motions; >= -eps with equality iff (s^2/r^2)^3 = 1/2; molecule energy = sum over particle pairs; trimer constants sigma = 2 radius, cutoff 7/2 (generated). Partial: symmetry proved for like particles only; for unlike particles it is FALSE of the code (kernel-decided witness over Q) - known finding F11. LJ2::default / new and the LJ molecule constructors are regenerated from the source (TieCtor).',
         'level_note': 'Trusted: Lean kernel + 3 axioms; LJ2/LJShape2 energy tied by the bit-exact pair family.',
         'technique': 'Lean 4 proof over R + kernel-decided counterexample over Q + source-to-Lean translation of the function bodies with tie theorems + bit-exact differential correspondence',
         'theorems': ['Proofs.C13', 'Proofs.TieLJ', 'Proofs.TieLJShape', 'Proofs.SrcC13', 'Proofs.TieOps', 'Proofs.TieCtor'],
@@ -233,7 +233,7 @@ PROPS = {
         'level_text': 'Full proof (over R) for every configuration with kt_start = 0, every (history-dependent) score function and every accept/reject history with non-negative thresholds: the temperature stays 0, an accepted score is never below the current one, the tracked score is non-decreasing along the run and the result is at least the input; for parameter-only scores the score of the returned state is at least that of the input. About the executable optimiser model, which reproduces whole optimise_state runs bit-for-bit from the seed.',
         'level_note': 'Trusted: Lean kernel + 3 axioms; optimiser model tied by bit-exact opt/optc families (scripted recording State and real crystal states, PCG port); real numbers have no NaN/inf: the IEEE behaviour at kt in {+0,-0,NaN} is covered by the guard `!(kt > 0)` being the first test (modelled literally) and by the carrier-generic NaN theorem in C07.',
         'technique': 'Lean 4 induction over optimiser runs (invariant) + source-to-Lean translation of the function bodies with tie theorems + bit-exact differential correspondence of whole runs',
-        'theorems': ['Proofs.C05', 'Proofs.TieAccept', 'Proofs.TieBuild', 'Proofs.TieLoopTail', 'Proofs.TieInnerStep'],
+        'theorems': ['Proofs.C05', 'Proofs.TieAccept', 'Proofs.TieBuild', 'Proofs.TieLoopTail', 'Proofs.TieInnerStep', 'Proofs.SrcC05'],
         'families': [('opt', 1500, 30000)],
         'search': (10, 240),
         'rule': 'opt: scripted recording states (explicit outcome lists with ties/invalids, quadratic bowls with forbidden zones) x configuration grid (kt_start 0/positive, kt_finish, kt_ratio incl. >1, steps/inner incl. 0, non-multiples, inner>steps, convergence); optc: real hard/LJ crystal states, 7 groups; non-trivial = run with >= 5 score calls; distinct by request text; search: history monitors on the real optimiser with kt_start = 0',
@@ -298,7 +298,7 @@ PROPS = {
         'assumptions': ['f64 rounding is not modelled (range claim checked exhaustively on the edge set at Float)'],
     },
     'C16': {
-        'level_text': 'Full proof. The property quantifies over a finite space (7 tables, <=4 operations, <=16 products each); it is decided completely by the Lean kernel (decide +kernel at exact Rat) on tables regenerated from the current text of src/wallpaper.rs and parsed by the model parser, against the ITA reference; lifted to explicitly quantified theorems.',
+        'level_text': 'Full proof. The property quantifies over a finite space (7 tables, <=4 operations, <=16 products each); it is decided completely by the Lean kernel (decide +kernel at exact Rat) on tables regenerated from the current text of src/wallpaper.rs and parsed by the model parser, against the ITA reference; lifted to explicitly quantified theorems. The parser the tables are read with is the regenerated from_operations (TieParse).',
         'level_note': 'Trusted: Lean kernel + 3 standard axioms; reference tables typed from International Tables A; translator pvtx.py (validated by the tables family: generated tables vs get_wallpaper_group + WyckoffSite::new on the real crate); model parser tied to from_operations by the parse family (bit-exact).',
         'technique': 'Lean 4 kernel decision (decide +kernel) over translator-regenerated tables + differential correspondence',
         'theorems': ['Proofs.C16', 'Proofs.TieParse'],
@@ -312,10 +312,10 @@ PROPS = {
         'assumptions': ['reference general positions typed in from International Tables A (Spec/Groups.lean)'],
     },
     'C17': {
-        'level_text': 'Full proof of the grammar clause (every string of the inductively defined grammar parses to the affine map its expression denotes, over any field) and of totality/error clauses for all strings, about a character-level model of from_operations.',
+        'level_text': 'Full proof of the grammar clause (every string of the inductively defined grammar parses to the affine map its expression denotes, over any field) and of totality/error clauses for all strings, about a character-level model of from_operations. The WHOLE body of from_operations (trim, split, dimension check, both loops, matrix writes, every bail) is regenerated from the source on every run and proved equal to the model parser for every input string and every scalar carrier (TieParse.from_operations_tie, core-only).',
         'level_note': 'Trusted: Lean kernel + 3 standard axioms; the model parser is tied to Transform2::from_operations by bit-exact differential correspondence on grammar, mutated and arbitrary Unicode strings; f64 rounding of d/e outside the theorem; Rust-level absence of panics rests on the modelled control flow (index sites guarded by the dimension check).',
         'technique': 'Lean 4 structural induction over an inductive grammar + differential correspondence',
-        'theorems': ['Proofs.C17', 'Proofs.TieParse'],
+        'theorems': ['Proofs.C17', 'Proofs.TieParse', 'Proofs.SrcC17'],
         'families': [('parse', 20000, 400000)],
         'search': (8, 120),
         'rule': ('parse: 60% grammar strings (all term orders/signs/spacing), 20% mutated, 10% alphabet noise, 10% arbitrary Unicode; '
@@ -328,7 +328,7 @@ PROPS = {
         'level_text': 'Full proof over R: every step of (0-based) loop l runs at kt_start * factor^l (constant within a loop, one multiplication between loops); factor = 1 - kt_ratio when a ratio is given; otherwise kt_start * factor^L = kt_finish for the L = steps/inner_steps loops of the run, so the last loop runs at kt_finish/factor; a zero start stays zero.',
         'level_note': 'Trusted: Lean kernel + 3 axioms; Real.rpow for powf; build/optimise model tied by bit-exact opt runs (the acceptance pattern of every run depends on kt per loop).',
         'technique': 'Lean 4 proof (Real.rpow) + run invariant + source-to-Lean translation of the function bodies with tie theorems + bit-exact differential correspondence',
-        'theorems': ['Proofs.C18', 'Proofs.TieBuild', 'Proofs.TieLoopTail'],
+        'theorems': ['Proofs.C18', 'Proofs.TieBuild', 'Proofs.TieLoopTail', 'Proofs.SrcC18'],
         'families': [('opt', 1500, 30000)],
         'search': (10, 240),
         'rule': 'opt as for C05; search: schedule monitor — for every visibly decided worse move the decision must equal thr < exp(-d/kT_l) with kT_l from the SPECIFIED schedule and thr re-drawn with the real rand crate (multi-loop configurations, score differences of the order of kT)',
@@ -339,7 +339,7 @@ PROPS = {
         'level_text': 'Full proof over R: a sample is within step*range/2 of the value, clamping never moves further from an in-range value, the adaptive ratio stays in (0,1] for every rejection history, hence every proposal of every loop changes exactly one cell by at most max_step_size*(max-min)/2.',
         'level_note': 'Trusted: Lean kernel + 3 axioms; draw in [-1/2,1/2) (rand gen_range, pinned by rng family).',
         'technique': 'Lean 4 invariant proof over runs + source-to-Lean translation of the function bodies with tie theorems + bit-exact differential correspondence',
-        'theorems': ['Proofs.C19', 'Proofs.C07Draw', 'Proofs.TieBasis', 'Proofs.DeclBasis', 'Proofs.TieLoopTail', 'Proofs.TieInnerStep'],
+        'theorems': ['Proofs.C19', 'Proofs.C07Draw', 'Proofs.TieBasis', 'Proofs.DeclBasis', 'Proofs.TieLoopTail', 'Proofs.TieInnerStep', 'Proofs.SrcC19'],
         'families': [('basis', 1000, 20000), ('opt', 1500, 30000), ('rng', 300, 6000)],
         'search': (10, 240),
         'rule': 'opt as for C05 with multi-loop configurations and all rejection rates; search: per-proposal step-bound monitor on recorded real histories',
@@ -351,7 +351,7 @@ PROPS = {
         'level_text': 'Proof: termination is structural; build never yields inner_steps = 0; without convergence exactly (steps/inner)*inner proposals (<= steps, > steps - inner); any run evaluates whole loops and at most steps; the run with a threshold is a prefix of the run without; an early exit implies the last six loops each gained less than the threshold; from a valid input no panic site of optimise_state is reachable. Partial: the CLI clause (exit status / files) is checked by the cli correspondence, argument parsing (structopt/clap) is trusted.',
         'level_note': 'Trusted: panic sites of optimise_state are enumerated by hand in the model (PanicSite) and tied by the opt family comparing panic/ok outcomes incl. panic site names; Lean kernel + 3 axioms.',
         'technique': 'Lean 4 structural induction over the optimiser loops + source-to-Lean translation of the function bodies with tie theorems + differential correspondence of outcomes',
-        'theorems': ['Proofs.C20', 'Proofs.TieBuild', 'Proofs.TieLoopTail', 'Proofs.TieBasis'],
+        'theorems': ['Proofs.C20', 'Proofs.TieBuild', 'Proofs.TieLoopTail', 'Proofs.TieBasis', 'Proofs.SrcC20'],
         'families': [('opt', 2000, 40000)],
         'search': (10, 240),
         'rule': 'opt as for C05 over steps/inner in {0,1,2,3,7,...} incl. non-multiples and inner > steps; search: work-bound and six-loop monitors, prefix oracle (same run with and without threshold), catch_unwind around every run',
